@@ -31,6 +31,8 @@ DRIVERS = [
     ("d10-params", "(a b root)", 2, 2, False),
     ("d11-yield", "(3 1 2 3)", 2, 2, False),
     ("d12-multijoin", "(t-done t-done c-done)", 2, 2, False),
+    ("d13-sleeper", "(w-done s-done)", 2, 2, True),
+    ("d14-sleeper-cv", "(w-done s-done 0)", 2, 2, True),
 ]
 
 
@@ -170,7 +172,7 @@ class Explorer:
 def main(tier):
     chk = Check("C11", "model_checking", tier, quick_s=170, thorough_s=1500)
     chk.clean_replays()
-    chk.rule = ("for each of 12 SRFI-18 drivers (2-4 threads, one shared mutex/condvar/counter): every schedule with at most k "
+    chk.rule = ("for each of 14 SRFI-18 drivers (2-4 threads, one shared mutex/condvar/counter): every schedule with at most k "
                 "deviations, a deviation being a pre-emption before a visible instruction at which another thread is runnable, or "
                 "a one second jump of the virtual clock; distinct_nontrivial = executions with at least one deviation")
     chk.assumptions = ["pre-emption only matters before instructions that touch shared memory, do I/O or call foreign code (others commute)",
